@@ -280,7 +280,7 @@ def context_rule(chk):
             chk.undecided(rule, cls.qual, "no method invoking the payload found", node=cls.node)
             continue
         for mname in facts["monitors"]:
-            fi = prog.lookup_method(cls, mname)
+            fi = common.monitor_fi(prog, cls, mname)
             ctx = set(g.contexts.get(fi.qual, ()))
             n += 1
             chk.count()
@@ -300,7 +300,7 @@ def context_rule(chk):
         # the monitor calls the payload itself; handing it on to a spawn primitive moves it (or its synchronous part)
         # to that primitive's context
         for mname in facts["monitors"]:
-            fi = prog.lookup_method(cls, mname)
+            fi = common.monitor_fi(prog, cls, mname)
             params = set(fi.params())
             for caller, node, prim, ctx, _tg in g.spawn_sites:
                 if caller is not fi:
